@@ -109,8 +109,10 @@ func c13Pass(r *core.Rand, jitter bool) []c13Stmt {
 			p = append(p, fmt.Sprintf("(%d, '%s')", i, pad))
 		}
 		return strings.Join(p, ", ")
-	}(), "wal")
+	}(), "sync")
 	add("delete", "DELETE FROM wide WHERE k >= 100", "wal")
+	add("insert", "INSERT INTO wide VALUES (5000, 'x')", "sync")
+	add("update", "UPDATE wide SET p = 'y' WHERE k = 5000", "sync")
 	// reload: switching databases closes the service and opens a new one, so
 	// the page cache is cold
 	add("other", "USE d2", "")
@@ -302,7 +304,7 @@ func parseRaceLogs(dir string) []raceReport {
 }
 
 func checkC13(c *core.Ctx) []core.Floor {
-	c.Rule = "one session goroutine against the REAL 100 ms flush goroutine. Each pass executes every statement kind {CREATE TABLE, INSERT single, INSERT multi-row (splitting; also 300 rows; 3800 rows of 270 bytes - a log append of more than a megabyte - and the DELETE of those rows; a table grown to 1250 rows in five statements, through the split of its internal root), UPDATE and DELETE (also over 300 rows), SELECT scan, SELECT join, SELECT without FROM (in front of changing statements), SELECTs of the catalog tables sys_pages / sys_schema straight after a changing statement} with placements {idle gap > 1 tick before and after, park of > 2 ticks at the statement's 2nd page change, park of > 2 ticks inside the log append, SELECT: park at a cache miss}, on fresh pages and after a reload (cold cache); the database in use is created again and a missing one selected (both refused) before the first table; eight tables are created in one database, each CREATE held open, so that the CREATE whose catalog row splits the catalog root is among them. One more pass per build keeps ONE store open for over 35 seconds (no USE in between): 27 s idle, then 70 statements in close succession, each held open inside its log append for 90 ms, so that nearly every tick from about the 270th to the 340th arrives while a statement is open. (a) -race build: handlers only sleep on the session goroutine and add no synchronisation; every data-race report with mkdb frames is a violation (happens-before reasoning, independent of the observed timing). (b) plain build (once as is, once with every page write of a flush slowed down to 15 ms by a sleep in the write hook, once with the database opened without fsync of the log, as csvimport -disable-wal-fsync does): every hook event is logged with its goroutine id; offline checker: no page or header write by ANY goroutine between a statement's first page change and the completion of its log append (CREATE TABLE: its last page change; an accepted INSERT / UPDATE / DELETE that returns without a completed log append keeps its window open until one completes); the same checker - and the race build - runs over passes with a page cache of 10-24 pages and statements that dirty hundreds of pages (the statement may be refused with 'cache is full', but must not push its own half-done pages to the data file). Distinct = (pass, statement, placement); non-trivial = the statement was actually held open (parked) across more than two timer periods."
+	c.Rule = "one session goroutine against the REAL 100 ms flush goroutine. Each pass executes every statement kind {CREATE TABLE, INSERT single, INSERT multi-row (splitting; also 300 rows; 3800 rows of 270 bytes - a log append of more than a megabyte - and the DELETE of those rows; a table grown to 1250 rows in five statements, through the split of its internal root), UPDATE and DELETE (also over 300 rows), SELECT scan, SELECT join, SELECT without FROM (in front of changing statements), SELECTs of the catalog tables sys_pages / sys_schema straight after a changing statement} with placements {idle gap > 1 tick before and after, park of > 2 ticks at the statement's 2nd page change, park of > 2 ticks inside the log append (before the write; for some statements between the write and its fsync), SELECT: park at a cache miss}, on fresh pages and after a reload (cold cache); the database in use is created again and a missing one selected (both refused) before the first table; eight tables are created in one database, each CREATE held open, so that the CREATE whose catalog row splits the catalog root is among them. One more pass per build keeps ONE store open for over 35 seconds (no USE in between): 27 s idle, then 70 statements in close succession, each held open inside its log append for 90 ms, so that nearly every tick from about the 270th to the 340th arrives while a statement is open. (a) -race build: handlers only sleep on the session goroutine and add no synchronisation; every data-race report with mkdb frames is a violation (happens-before reasoning, independent of the observed timing). (b) plain build (once as is, once with every page write of a flush slowed down to 15 ms by a sleep in the write hook, once with the database opened without fsync of the log, as csvimport -disable-wal-fsync does): every hook event is logged with its goroutine id; offline checker: no page or header write by ANY goroutine between a statement's first page change and the completion of its log append (CREATE TABLE: its last page change; an accepted INSERT / UPDATE / DELETE that returns without a completed log append keeps its window open until one completes); the same checker - and the race build - runs over passes with a page cache of 10-24 pages and statements that dirty hundreds of pages (the statement may be refused with 'cache is full', but must not push its own half-done pages to the data file). Distinct = (pass, statement, placement); non-trivial = the statement was actually held open (parked) across more than two timer periods."
 	c.Assume = []string{"a park of 230-400 ms spans at least two 100 ms ticks", "handlers of the race build run on the session goroutine only and share nothing with the flusher"}
 	passes := 2
 	if !core.Quick(c) {
